@@ -58,7 +58,7 @@ func genC06(t *rapid.T) c06Case {
 	n := rapid.IntRange(4, 14).Draw(t, "nsteps")
 	var pool []*core.StructSpec
 	for i := 0; i < n; i++ {
-		op := rapid.SampledFrom([]string{"decode", "decode", "decode", "clobber", "gc", "gc", "drop", "garbage"}).Draw(t, "op")
+		op := rapid.SampledFrom([]string{"decode", "decode", "decode", "clobber", "gc", "gc", "drop", "garbage", "burst"}).Draw(t, "op")
 		st := c06Step{Op: op, Target: rapid.IntRange(0, 7).Draw(t, "target")}
 		if op == "decode" {
 			var s *core.StructSpec
@@ -75,7 +75,7 @@ func genC06(t *rapid.T) c06Case {
 		c.Steps = append(c.Steps, st)
 	}
 	// make sure the history ends with: overwrite inputs, further decode, collections
-	c.Steps = append(c.Steps, c06Step{Op: "clobber", Target: 0}, c06Step{Op: "garbage"}, c06Step{Op: "gc"}, c06Step{Op: "gc"})
+	c.Steps = append(c.Steps, c06Step{Op: "burst", Target: rapid.IntRange(0, 7).Draw(t, "bursttarget")}, c06Step{Op: "clobber", Target: 0}, c06Step{Op: "garbage"}, c06Step{Op: "gc"}, c06Step{Op: "gc"})
 	return c
 }
 
@@ -154,6 +154,13 @@ func collectExtents(s *core.StructSpec, rv reflect.Value, path string, out *[]ex
 			a := fv.Pointer()
 			*out = append(*out, extent{a, a + et.Size(), uintptr(et.Align()), p + ":*scalar", hasPointers(et)})
 			fv = fv.Elem()
+		}
+		if f.Type.Kind == core.KString && s.HasInit {
+			// a string equal to its declared default is the initialiser's literal (static data shared
+			// by every instance), not memory the decoder created for a transmitted value
+			if d, ok := s.Defaults[f.ID]; ok && string(d.S) == fv.String() {
+				continue
+			}
 		}
 		val(f.Type, fv, p)
 	}
@@ -273,6 +280,49 @@ func runC06(w *worker) func(c c06Case) *Failure {
 				live = append(live, o)
 				if len(live) > 6 {
 					live = live[1:]
+				}
+			case "burst":
+				// the sub-allocator's position carries over from decode to decode: re-decoding one
+				// message many times walks it through the block at every phase (alignment padding at
+				// block ends, large-object threshold); every object is checked, the last one stays live
+				if len(live) == 0 {
+					break
+				}
+				src := live[st.Target%len(live)]
+				msg := c.Steps[src.step].Msg
+				reps := 120 + (st.Target*37)%200
+				var last *liveObj
+				for r := 0; r < reps; r++ {
+					o := &liveObj{spec: src.spec, b: src.b, dest: newDest(src.b), step: src.step}
+					o.in = append(make([]byte, 0, len(msg)), msg...)
+					if _, err, f := fDecode(o.in, o.dest.Interface()); f != nil || err != nil {
+						if f != nil {
+							return f
+						}
+						return failf("wellformed-rejected", "step %d: repetition %d of a message accepted before failed: %v", i, r, err)
+					}
+					o.ext = o.ext[:0]
+					collectExtents(src.spec, o.dest.Elem(), "$", &o.ext)
+					for _, e := range o.ext {
+						if e.align > 1 && e.lo%e.align != 0 {
+							return failf("misaligned", "step %d (repetition %d of the message of step %d): %s at %#x is not aligned to %d", i, r, src.step, e.what, e.lo, e.align)
+						}
+					}
+					if a, b, bad := overlapIn(append(append([]extent{}, o.ext...), src.ext...)); bad {
+						return failf("memory-shared", "step %d (repetition %d): %s [%#x,%#x) overlaps %s [%#x,%#x)", i, r, a.what, a.lo, a.hi, b.what, b.lo, b.hi)
+					}
+					last = o
+				}
+				if last != nil {
+					last.snap = last.b.Lift(last.dest.Elem())
+					if m := core.EqualStruct(src.spec, last.snap, src.snap, core.EqOpts{}, "$"); m != nil {
+						return failf("decoded-value-differs", "step %d: repeated decode of the same message differs: %s", i, m)
+					}
+					live = append(live, last)
+					if len(live) > 6 {
+						live = live[1:]
+					}
+					nExt += len(last.ext)
 				}
 			case "clobber":
 				if len(live) > 0 {
